@@ -79,6 +79,10 @@ pub fn signature(a: &str, b: &str) -> J {
     let class = |s: &str| crate::run::outcome_class(s);
     let (ca, cb) = (class(a), class(b));
     let ok = |c: &str| c.starts_with("ok_");
+    let text = |s: &str| s.split("\n// spans:").next().unwrap_or(s).to_string();
+    if ok(ca) && ok(cb) && text(a) == text(b) {
+        return J::obj().set("kind", J::s("token_spans")).set("note", J::s("identical token text; the spans carried by the tokens differ"));
+    }
     if ok(ca) && ok(cb) {
         if let (Some(ia), Some(ib)) = (top_level_items(a), top_level_items(b)) {
             let (mut sa, mut sb) = (ia.clone(), ib.clone());
@@ -102,6 +106,15 @@ pub fn signature(a: &str, b: &str) -> J {
         }
         return J::obj().set("kind", J::s("tokens"));
     }
+    if ca == "diagnostic" && cb == "diagnostic" && diag_text(a) == diag_text(b) {
+        // same message: the tokens differ only in the span they carry (where the error points)
+        let sp = |s: &str| s.split("// spans:").nth(1).unwrap_or("").trim().to_string();
+        return J::obj()
+            .set("kind", J::s("diagnostic_span"))
+            .set("message", J::s(diag_text(a)))
+            .set("first", J::s(sp(a)))
+            .set("second", J::s(sp(b)));
+    }
     if ca == "diagnostic" && cb == "diagnostic" {
         return J::obj()
             .set("kind", J::s("diagnostic_choice"))
@@ -113,6 +126,7 @@ pub fn signature(a: &str, b: &str) -> J {
 
 fn diag_text(out: &str) -> String {
     // `:: core :: compile_error ! { "message" }`
+    let out = out.split("\n// spans:").next().unwrap_or(out);
     if let (Some(i), Some(j)) = (out.find('"'), out.rfind('"')) {
         if j > i {
             return out[i + 1..j].to_string();
@@ -250,7 +264,8 @@ pub fn write_replay(
         .set("minimisation", J::obj()
             .set("evaluations", J::i(m.evals as u64))
             .set("confirmed_replays_of_3", J::i(m.confirmed_replays as u64))
-            .set("log", J::Arr(m.log.iter().map(|l| J::s(l.clone())).collect())));
+            .set("log", J::Arr(m.log.iter().map(|l| J::s(l.clone())).collect())))
+        .set("seam_probes", J::s(m.probes.clone()));
     let path = dir.join(format!("C16-{verif_seed}-{run}.json"));
     std::fs::write(&path, j.to_string_pretty())?;
     Ok(path)
@@ -318,7 +333,7 @@ fn count_fired(plan: &crate::run::Plan, res: &RunResult, fired: &mut BTreeMap<&'
     let mut prev: BTreeMap<(usize, u64), (usize, &'static str)> = BTreeMap::new();
     let mut ev = res.events.iter().peekable();
     let mut bump = |k: &'static str| *fired.entry(k).or_insert(0) += 1;
-    let mut last_clock: i64 = 0;
+    let mut last_clock: i64 = 1_700_000_000;
     for (n, &wi) in plan.order.iter().enumerate() {
         if n >= res.ops_executed {
             break;
@@ -455,7 +470,7 @@ pub fn shard_main(a: &Args) -> i32 {
         }
         // simulated time covered: sum of |clock jumps|
         for w in &plan.scenario.worlds {
-            let mut last = 0i64;
+            let mut last = 1_700_000_000i64;
             for op in &w.ops {
                 if let Op::Clock { s, .. } = op {
                     sim_clock_span += (*s as i128 - last as i128).abs();
@@ -535,6 +550,7 @@ pub fn shard_main(a: &Args) -> i32 {
                         // unminimised scenario rather than hide it
                         let sig = signature(&f.outcome, &o.outcome);
                         let m = shrink::Minimised {
+                            probes: String::new(),
                             scenario: plan.scenario.clone(),
                             target: o.input,
                             a: f.clone(),
